@@ -66,6 +66,18 @@ CLAIMED["C05"] = dict(
     technique="jaxpr symbolic execution; z3 QF_LRA (XL certificates) for the Gaussian algebra, z3 QF_UFLRA over the unrolled driver for the control part; replay on the real code",
     design="§4 C05")
 
+CLAIMED["C09"] = dict(
+    text="Bounded symbolic model checking of the real prior code: the integrated-Wiener prior of all three factorisations is "
+         "constructed INSIDE the trace (Kahan's Hilbert-Cholesky recurrence, QR re-triangularisation, sign normalisation, "
+         "Taylor preconditioner; square roots of integers are exact algebraic atoms) and its transition over a symbolic step "
+         "h>0 with symbolic calibrated and base scales is shown equal to the closed-form Taylor/Pascal matrix and "
+         "Hilbert-type process noise; transitions over h1 then h2 merge to the transition over h1+h2; every Pade/Legendre "
+         "initialisation (orders 3,5,7,9,13) reproduces e^A and the exact Gramian on the nilpotent drift where it is "
+         "algebraically exact; one doubling step is exact from an arbitrary state. z3 QF_LRA decides the linearised "
+         "polynomial obligations.",
+    technique="jaxpr symbolic execution with exact algebraic constants + polynomial hypotheses + z3 QF_LRA (XL certificates); float64 replay",
+    design="§4 C09")
+
 DIRECT_NOTE = ("Assumes real arithmetic and polynomial inputs with symbolic coefficients up to the stated degree/size. "
                "Trusted base: CPython+JAX tracing (jet/jvp/vmap are JAX's own), the jxs interpreter and polynomial "
                "arithmetic (re-validated every run against the real JAX runtime), z3.")
